@@ -70,7 +70,7 @@ for bi, base in enumerate(BASES):
             if l != r:
                 SINGLES.append((bi, [((f, a, 0), r), ((f, a, 1), l)]))
 N_DOUBLES = [len(slots(b)) * (len(slots(b)) - 1) // 2 * (len(VALUES) - 1) ** 2 for b in BASES]
-N_RANDOM = {"quick": 600, "thorough": 12000}
+N_RANDOM = {"quick": 600, "thorough": 60000}
 N_DOUBLE_SAMPLE = 2500
 BUDGET = {
     "quick": len(T625) + len(SINGLES) + N_DOUBLE_SAMPLE + N_RANDOM["quick"] + 40,
